@@ -241,6 +241,16 @@ def generate(tier, rng):
         yield make_case(k, r, c, [("b", [True] * 11, False)], rng, "1d-mask-corners")
 
 
+def pregen():
+    """regenerate coq/theories/Gen/AllocArms.v from the current Rust source (translators/alloc_arms.py): the allocation obligations
+    of Props/C03.v are stated over that table"""
+    import os, sys
+    from vlib import core as _core
+    sys.path.insert(0, os.path.join(_core.ROOT, "translators"))
+    import armlib
+    return armlib.pregen(PROP, [("alloc_arms", "theories/Proofs/AllocArmsP.vo")])
+
+
 def shrink(case):
     return []
 
